@@ -298,6 +298,9 @@ func FamilyDefaults(thorough bool) []*Skeleton {
 		add("d1.required."+name, J{"properties": J{"a": J{"default": d}}, "required": A{"a"}}, 1)
 	}
 	add("d1.two", J{"properties": J{"a": J{"default": 1}, "b": J{"default": "x"}, "c": J{"type": "string"}}, "required": A{"b"}}, 1)
+	add("d1.types-list-required", J{"type": A{"object", "null"}, "properties": J{"id": J{"default": 7}, "tag": J{"default": "t"}}, "required": A{"id"}}, 1)
+	add("d1.type-string-required", J{"type": "string", "properties": J{"id": J{"default": 7}}, "required": A{"id"}}, 1)
+	add("d2.types-list-nested-required", J{"properties": J{"a": J{"type": A{"null", "object"}, "properties": J{"b": J{"default": 2}, "c": J{"default": 3}}, "required": A{"b"}}}}, 2)
 	add("d1.typed", J{"type": "object", "properties": J{"a": J{"type": "integer", "default": 7}}}, 1)
 	add("d2.nested", J{"properties": J{"a": J{"properties": J{"b": J{"default": 2}}}}}, 2)
 	add("d2.nested-parent-default", J{"properties": J{"a": J{"default": J{"x": 1}, "properties": J{"b": J{"default": 2}, "x": J{"default": 9}}}}}, 2)
